@@ -152,6 +152,7 @@ struct Exchange {
 	std::string wire;                 // bytes to send
 	std::vector<int> seg;             // client write segmentation
 	std::vector<int> seg_delay_ms;    // pause after the i-th segment (a slow peer)
+	bool pre_sent = false;            // pipelining: this request's bytes travel at the tail of the previous exchange's wire image
 	bool http11 = false, keepalive = false; FcgiLayout fl;
 	// faults on this exchange
 	int close_after = -1;             // client closes (both directions) after sending this many bytes of this exchange
@@ -189,8 +190,8 @@ struct Client : simk::Actor {
 	}
 	int64_t next_time() override { if(finished) return -1; if(!connected) return simk::is_listening(addr) ? t_created + start_delay_us : -1; if(hold_until > simk::now_us() && (deadline < 0 || hold_until < deadline)) return hold_until; return deadline; }
 	void finish_all(bool early){ for(size_t i=cur;i<ex.size();i++) if(!ex[i].done){ ex[i].done = true; ex[i].conn_closed_early = early; ex[i].t_done = simk::now_us(); } finished = true; if(c) c->close(); }
-	void start_exchange(){ sent = 0; segi = 0; deadline = simk::now_us() + timeout_us; E().t_start = simk::now_us(); }
-	void complete_current(){ Exchange &e = E(); e.done = true; e.t_done = simk::now_us(); cur++; if(cur >= ex.size()){ finished = true; c->close(); } else start_exchange(); }
+	void start_exchange(){ sent = 0; segi = 0; deadline = simk::now_us() + timeout_us; E().t_start = simk::now_us(); if(E().pre_sent){ sent = E().wire.size(); E().t_sent = simk::now_us(); } }
+	void complete_current(){ Exchange &e = E(); e.done = true; e.t_done = simk::now_us(); cur++; if(cur >= ex.size()){ finished = true; c->close(); } else { start_exchange(); if(!in.empty()) try_parse(); } }   // a pipelined response may be here already
 	// Parsing the whole receive buffer after every step is quadratic for a large response that arrives in thousands of small pieces (a 40 s
 	// "real-time hang" of the harness itself under FastCGI, found by a soak run). This gate decides cheaply and incrementally whether the full
 	// parsers could possibly report a complete (or broken) response; it may say yes too often, never no when they would say yes.
@@ -363,7 +364,7 @@ struct E1 : Engine {
 			c["cap_to_server"] = (int)(r.below(3) == 0 ? 1 + r.below(64) : 256 + r.below(65536)); c["cap_to_client"] = (int)(r.below(3) == 0 ? 1 + r.below(64) : 256 + r.below(262144));
 			J rp = J::arr(); int nrp = r.below(4); for(int i=0;i<nrp;i++) rp.push((int)(1 + r.below(r.below(2) ? 16 : 5000))); c["read_pace"] = rp; c["start_delay_us"] = (int)r.below(2000);
 			bool bad_conn = (prop == "C02" && (ci == 0 || r.below(2))) || (prop == "C12" && r.below(4) == 0);   // C12: the last request of a quarter of the connections carries a malformed / mis-sized upload
-			bool http11 = r.below(2); c["http11"] = http11; int nreq = proto == 1 ? 1 : 1 + r.below(bad_conn ? 2 : 4); bool ka = nreq > 1 || r.below(3) == 0; c["keepalive"] = ka;
+			bool http11 = r.below(2); c["http11"] = http11; c["pipeline"] = (int)(r.below(3) == 0); int nreq = proto == 1 ? 1 : 1 + r.below(bad_conn ? 2 : 4); bool ka = nreq > 1 || r.below(3) == 0; c["keepalive"] = ka;
 			{ int narrow = std::min((int)cfg.geti("input_buffer_size"),(int)c.geti("cap_to_server")); gen_budget() = narrow <= 8 ? 2500 : narrow <= 64 ? 16000 : 1u<<30; }
 			J exs = J::arr();
 			for(int i=0;i<nreq;i++){ J e = J::obj(); { char tb[40]; snprintf(tb,sizeof(tb),"q%dz%06llx",tagn,(unsigned long long)(wire::fnv("tag" + std::to_string(tagn)) & 0xffffff)); tagn++; e["tag"] = tb; }   // self-checking: a mutated tag cannot turn into another request's tag
@@ -532,7 +533,7 @@ struct E1 : Engine {
 		simk::begin(sp);
 		const J &cfg = plan.get("cfg");
 		int rt = (int)(((cfg.geti("reactor") % 3) + 3) % 3);
-		std::vector<std::unique_ptr<Client>> clients;
+		std::vector<std::unique_ptr<Client>> clients; int n_pipelined = 0;
 		std::string run_exception; int conn_leak = 0; std::string upload_dir;
 		size_t content_limit = (size_t)std::max<int64_t>(1,std::min<int64_t>(plan.get("cfg").geti("content_limit_kb",2048),4096)) * 1024, multipart_limit = (size_t)std::max<int64_t>(1,std::min<int64_t>(plan.get("cfg").geti("multipart_limit_kb",2048),4096)) * 1024;
 		{
@@ -564,6 +565,10 @@ struct E1 : Engine {
 					cl->cap_to_server = (size_t)std::max<int64_t>(1,std::min<int64_t>(jc.geti("cap_to_server",4096),1<<20)); cl->cap_to_client = (size_t)std::max<int64_t>(1,std::min<int64_t>(jc.geti("cap_to_client",4096),1<<20));
 					const J &rp = jc.get("read_pace"); for(size_t i=0;i<rp.size();i++) cl->read_pace.push_back((int)rp.a[i].as_int()); cl->start_delay_us = (int)std::max<int64_t>(0,std::min<int64_t>(jc.geti("start_delay_us"),10000000)); cl->t_created = simk::now_us(); cl->rng.seed(sp.fault_seed + ci);
 					const J &exs = jc.get("ex"); for(size_t i=0;i<exs.size() && i<6;i++){ cl->ex.emplace_back(); build_exchange(exs.a[i],jc,cl->ex.back(),cl->proto); for(auto &d:cl->ex.back().seg_delay_ms) d = (int)std::min<int64_t>(d,std::max<int64_t>(1,cfg.geti("http_timeout",10))*450); }
+					// HTTP/1.1 pipelining: the next request is sent right behind the previous one, before its response has been read
+					if(jc.geti("pipeline") && cl->proto == 0 && jc.geti("http11") && jc.geti("keepalive")){
+						for(size_t i=cl->ex.size();i-- > 1;){ Exchange &a = cl->ex[i-1], &b2 = cl->ex[i]; auto plain = [](const Exchange &x){ return x.well_formed && x.close_after < 0 && x.halfclose_after < 0 && x.reset_after < 0 && x.abort_after < 0 && !x.stall && x.seg_delay_ms.empty(); };
+							if(plain(a) && plain(b2)){ a.wire += b2.wire; b2.pre_sent = true; n_pipelined++; } } }
 					cl->bad_wait_us = (v.get<int>("http.timeout") + 6) * 1000000LL;
 					for(auto &e:cl->ex) if(!e.well_formed && cl->proto != 0 && e.after == "wait") e.after = "halfclose";
 					if(cl->ex.empty()) continue;
@@ -677,6 +682,7 @@ struct E1 : Engine {
 		if(res.ok && !aw.exception.empty()) res.fail("exception-escaped",aw.exception);
 		res.counters["raw_mode_responses"] = n_raw; res.counters["client_aborts_mid_response"] = n_aborted; res.counters["filter_on_error_calls"] = n_on_error; res.counters["content_filter_requests"] = n_filtered; res.counters["filters_installed"] = aw.filters_installed; res.counters["over_limit_413"] = n_over_limit; res.counters["gzip_announced_empty_body"] = n_gzip_empty; res.counters["malformed_exchanges"] = n_bad; res.counters["malformed_refused_as_required"] = n_bad_refused; res.counters["page_cache_hits"] = n_cache_hits; res.counters["exchanges"] = n_ex; res.counters["multi_segment_requests"] = n_multi_seg; res.counters["requests_with_body"] = n_body; res.counters["keepalive_followups"] = n_keepalive_followups; res.counters["writer_responses"] = n_writer; res.counters["gzip_responses"] = n_gzip; res.counters["chunked_responses"] = n_chunked;
 		{ long long np = 0; for(auto &cl:clients) np += cl->n_pauses; res.counters["slow_peer_pauses"] = np; }
+		res.counters["pipelined_requests"] = n_pipelined;
 		res.counters["disk_faults_injected"] = (long long)st.stdio_fail; res.counters["upload_spill_stdio_calls"] = (long long)st.stdio_ops; res.counters["uploads_refused_after_disk_fault"] = n_disk_refused;
 		res.counters["steps"] = (long long)st.steps; res.counters["switches"] = (long long)st.switches; res.counters["short_reads"] = (long long)st.short_reads; res.counters["short_writes"] = (long long)st.short_writes; res.counters["eagain"] = (long long)(st.eagain_r + st.eagain_w);
 		res.counters["eintr"] = (long long)st.eintr; res.counters["spurious_wakeups"] = (long long)st.spurious; res.counters["accepts"] = (long long)st.accepts; res.counters["bytes_to_server"] = (long long)st.bytes_rx; res.counters["bytes_to_client"] = (long long)st.bytes_tx;
